@@ -32,7 +32,8 @@ func (s TreeSpec) Tree() Tree {
 var nameComponents = []string{"a", "b", "c", "dir", "sub dir", "ünï", "x.y", ".hidden", "trailing.", "bundle.yaml", "名前", "a-b", "A", "data_1", "é", "f.txt", "..x"}
 
 // Decoys are paths that look like (or are) generated paths
-var Decoys = []string{".datamon/x", ".datamon/deep/y.yaml", ".conflicts/s/p", ".checkpoints", ".checkpoints/c/q", "a/.datamon/x", ".datamonx", "x.datamon", "dir/.conflicts/z", ".Conflicts/u"}
+var Decoys = []string{".datamon/x", ".datamon/deep/y.yaml", ".conflicts/s/p", ".checkpoints", ".checkpoints/c/q", "a/.datamon/x", ".datamonx", "x.datamon", "dir/.conflicts/z", ".Conflicts/u",
+	".datamon.bak", ".conflicts-resolved/a.txt", ".checkpoints.json", ".checkpoints 2020/x", ".datamon-old/x", ".conflicts~", "..conflicts", "..checkpoints/w"}
 
 // IsGeneratedRef is the independent reference predicate for generated (reserved) paths: strip one
 // leading "./" or "/", then the first path component is .datamon, .conflicts or .checkpoints.
